@@ -282,7 +282,7 @@ def bounded(ctx, b):
                     ref = reference_times(timeline, drop, offset)
                     flashes = any(0 < e - s < 50000 for s, e in ref)
                     try:
-                        cs = SCCReader().read(doc, offset=offset)
+                        cs = _SHARED_READER.read(doc, offset=offset)
                     except CaptionReadTimingError:
                         return flashes, {"raised_timing_error_but_no_caption_is_shorter_than_0.05s": [(float(s), float(e)) for s, e in ref]}
                     if flashes:
@@ -307,7 +307,7 @@ def bounded(ctx, b):
                 ref = reference_times(timeline, drop, 0)
                 flashes = any(0 < e - s < 50000 for s, e in ref)
                 try:
-                    cs = SCCReader().read(doc)
+                    cs = _SHARED_READER.read(doc)
                 except CaptionReadTimingError:
                     return flashes, {"raised_timing_error_but_no_caption_is_shorter_than_0.05s": [(float(s), float(e)) for s, e in ref], "doc": doc}
                 if flashes:
@@ -321,7 +321,7 @@ def bounded(ctx, b):
         def two(drop=drop):
             doc = C.scc_document([(C.timecode(60, drop), [C.ctrl("ENM"), C.ctrl("RCL"), C.pac(1)] + C.text_words("top") +
                                    [C.pac(15)] + C.text_words("bottom") + [C.ctrl("EOC")])])
-            caps = SCCReader().read(doc).get_captions("en-US")
+            caps = _SHARED_READER.read(doc).get_captions("en-US")
             ok = len(caps) == 2 and all(abs(c_.end - c_.start - 4 * 10 ** 6) < 1 for c_ in caps) and caps[0].start == caps[1].start
             return ok, {"captions": [(c_.start, c_.end, c_.get_text()) for c_ in caps]}
         b.guard(("split_last", drop), two, sample={"case": "unterminated two-part caption", "drop": drop})
@@ -329,7 +329,7 @@ def bounded(ctx, b):
     def three():
         doc = C.scc_document([(C.timecode(60), [C.ctrl("ENM"), C.ctrl("RCL"), C.pac(15)] + C.text_words("flash") + [C.ctrl("EOC"), C.ctrl("RCL"), C.ctrl("EDM")])])
         try:
-            cs = SCCReader().read(doc)
+            cs = _SHARED_READER.read(doc)
         except CaptionReadTimingError:
             return True, None
         caps = cs.get_captions("en-US")
@@ -357,3 +357,8 @@ def run(ctx):
               "the five-frame threshold is decided outside a band of [5 frames - 0.001 us, 5 frames + 1 us + 0.001 us]; "
               "A: re.match (pattern translated), str slicing / replace / split on structured strings")
     ctx.assume("_translate_command's EOC / EDM transitions and the pop-on queue are bounded-checked only (whole-stream timing)")
+
+
+# one reader object for every stream of the run: what a read returns must depend on the stream only,
+# also right after a read that raised (reader reuse)
+_SHARED_READER = SCCReader()
